@@ -73,7 +73,7 @@ func (r *wRS) Register(_ context.Context, req channel.AdjudicatorReq, subs []cha
 func (r *wRS) Subscribe(_ context.Context, id channel.ID) (channel.AdjudicatorSubscription, error) {
 	r.mu.Lock()
 	defer r.mu.Unlock()
-	s := &wSub{ev: make(chan channel.AdjudicatorEvent, 32), closed: make(chan struct{})}
+	s := &wSub{ev: make(chan channel.AdjudicatorEvent, 128), closed: make(chan struct{})}
 	r.subs[id] = s
 	return s, nil
 }
@@ -113,6 +113,9 @@ func wState(name string, ver int, locked tla.Seq) *channel.State {
 // local.Watcher in a synctest bubble. It returns a description of the first
 // deviation ("" if none), the index of the failing step and a class for it.
 func runWatcherBehaviour(t *testing.T, steps []wStep) (what string, at int, class string) {
+	startVer := EnvInt("VERIF_START_VER", 0) // the version with which watching of every channel starts (constant Start)
+	lazy := os.Getenv("VERIF_LAZY") == "1"   // the client reads its events only at the end (constant Backlog)
+	wantLazy := map[string][]string{}
 	defer func() {
 		if p := recover(); p != nil && what == "" {
 			at = len(steps) - 1
@@ -138,7 +141,7 @@ func runWatcherBehaviour(t *testing.T, steps []wStep) (what string, at int, clas
 			synctest.Wait()
 		}
 		var err error
-		pubs["P"], asubs["P"], err = w.StartWatchingLedgerChannel(ctx, channel.SignedState{Params: wParams["P"], State: wState("P", 0, nil)})
+		pubs["P"], asubs["P"], err = w.StartWatchingLedgerChannel(ctx, channel.SignedState{Params: wParams["P"], State: wState("P", startVer, nil)})
 		if err != nil {
 			t.Fatal(err)
 		}
@@ -171,7 +174,7 @@ func runWatcherBehaviour(t *testing.T, steps []wStep) (what string, at int, clas
 				switch a.Name {
 				case "StartSub":
 					s := a.Args[0].(string)
-					pub, sub, err := w.StartWatchingSubChannel(ctx, wParams["P"].ID(), channel.SignedState{Params: wParams[s], State: wState(s, 0, nil)})
+					pub, sub, err := w.StartWatchingSubChannel(ctx, wParams["P"].ID(), channel.SignedState{Params: wParams[s], State: wState(s, startVer, nil)})
 					if err != nil {
 						res = "refused"
 					} else {
@@ -226,7 +229,7 @@ func runWatcherBehaviour(t *testing.T, steps []wStep) (what string, at int, clas
 			var relayed []string
 			for _, n := range []string{"P", "S1", "S2"} {
 				sub := asubs[n]
-				if sub == nil {
+				if sub == nil || lazy {
 					continue
 				}
 			drain:
@@ -276,6 +279,13 @@ func runWatcherBehaviour(t *testing.T, steps []wStep) (what string, at int, clas
 				wantRelay = append(wantRelay, fmt.Sprintf("%s/%s/%d", q[0].(string), q[1].(string), q[2].(int)))
 			}
 			sort.Strings(wantRelay)
+			if lazy { // remembered per channel, compared when the client finally reads
+				for _, e := range wantRelay {
+					c := strings.SplitN(e, "/", 2)[0]
+					wantLazy[c] = append(wantLazy[c], e)
+				}
+				wantRelay = nil
+			}
 			switch {
 			case res != out["res"].(string):
 				what, class = fmt.Sprintf("%s returned %q, the specification requires %q", a.Label, res, out["res"]), "result|"+a.Name
@@ -287,6 +297,39 @@ func runWatcherBehaviour(t *testing.T, steps []wStep) (what string, at int, clas
 			if what != "" {
 				at = k
 				return
+			}
+		}
+		if lazy { // the client reads now: every progressed / concluded event must be there, in order
+			for _, n := range []string{"P", "S1", "S2"} {
+				sub := asubs[n]
+				if sub == nil {
+					continue
+				}
+				var got []string
+				for len(got) < len(wantLazy[n]) {
+					select {
+					case e, ok := <-sub.EventStream():
+						if !ok {
+							break
+						}
+						kind := "registered"
+						switch e.(type) {
+						case *channel.ProgressedEvent:
+							kind = "progressed"
+						case *channel.ConcludedEvent:
+							kind = "concluded"
+						}
+						got = append(got, fmt.Sprintf("%s/%s/%d", n, kind, e.Version()))
+						quiesce()
+						continue
+					default:
+					}
+					break
+				}
+				if strings.Join(got, ";") != strings.Join(wantLazy[n], ";") {
+					what, at, class = fmt.Sprintf("the client of channel %s read its events only at the end: it got %d event(s) [%s], the chain had reported %d [%s]", n, len(got), strings.Join(got, "; "), len(wantLazy[n]), strings.Join(wantLazy[n], "; ")), len(steps)-1, "relay|backlog"
+					return
+				}
 			}
 		}
 	})
